@@ -3,7 +3,7 @@
 From Boltons Require Import Lib.Prelude Lib.C03_Syntax Lib.C03_Conc Model.C03_Model
      Proofs.C03_Serial Proofs.C03_Covered Proofs.C03_Main Proofs.C03_Link1 Proofs.C03_Link2 Proofs.C03_Link4 Proofs.C03_Link3
      Spec.C03_Spec Proofs.C03_SpecLink Proofs.C03_SpecLink2 Proofs.C03_SpecLink3
-     Proofs.C03_Complete Proofs.C03_FinalOk Proofs.C03_Probe Proofs.C03_Transfer Check.C03_Check Gen.C03_Gen.
+     Proofs.C03_Complete Proofs.C03_FinalOk Proofs.C03_Probe Proofs.C03_Transfer Proofs.C03_Final Check.C03_Check Gen.C03_Gen.
 
 (* (T) obligation over regenerated data: in the CURRENT source, self._lock is a
    threading.RLock and every statement of every C03 method of LRI and LRU that touches the
@@ -218,6 +218,23 @@ Theorem C03_step_accepted_by_own_spec :
       /\ r_accepts (rc_of c) (Boltons.Model.C02_Model.ring m) o r = Some (Boltons.Model.C02_Model.ring m').
 Proof. exact op_accepted_by_c03_spec. Qed.
 Print Assumptions C03_step_accepted_by_own_spec.
+
+(* ---- THE PROPERTY, for the micro-step model, in the very terms `holds` evaluates ------------------
+   For every covered lock table, every configuration with max_size >= 1, every initial contents and
+   every list of thread programs (well-formed `==` literals, key tokens < 100), and EVERY schedule:
+   the observation of the finished run -- what each thread got back, dict(cache), len, the eviction
+   probe, len after the probe -- satisfies Spec.spec_holds: len <= max_size and some interleaving
+   respecting each thread's order is accepted by the sequential reference cache and ends in a state
+   with exactly those items and that eviction order. *)
+Theorem C03_every_schedule_satisfies_spec :
+  forall tb cf init ps,
+    table_covered tb = true -> wf_progs cf init ps ->
+    forall sched,
+      let s := conc_run tb cf (progs_fn ps) (run_ops tb cf shared_init (init_ops init)) sched in
+      finished s ->
+      spec_holds (rc_of cf) init ps (observe_conc tb cf (length ps) s) = true.
+Proof. exact conc_outcome_holds. Qed.
+Print Assumptions C03_every_schedule_satisfies_spec.
 
 (* ---- `agree` transfers to `holds` -----------------------------------------------------------------
    What the check computes per run: agree = the model (Model/C03_Model.v, run serially in the observed
